@@ -756,7 +756,10 @@ def _exec(M: Machine, prog: Program, single=False, trace=False):
                 if fp is not None:
                     if len(stack) < fp + r:
                         raise Panic("retsub: not enough return values")
-                    rets = stack[len(stack) - r:] if r else []
+                    # go-algorand opRetSub: the R values that sit directly above the frame pointer (frame slots 0..R-1) are moved to
+                    # where the arguments started; everything above them (locals) is discarded.  PyTeal relies on this: results are
+                    # buried into slot 0 (`frame_bury 0; retsub` with locals still above) - see tests/integration/teal/roundtrip/*_v8.teal
+                    rets = stack[fp:fp + r]
                     del stack[fp - a:]
                     stack.extend(rets)
                 pc = rpc
@@ -906,6 +909,9 @@ def _canary():
         (P + "int 1\nbnz skip\nint 7\nitob\nlog\nskip:\nint 1\nreturn\n", ("approve", [])),
         (P + "int 4\ncallsub dbl\nitob\nlog\nint 1\nreturn\ndbl:\nint 2\n*\nretsub\n", ("approve", [(8).to_bytes(8, "big")])),
         (P + "int 9\nstore 3\nload 3\nload 4\n+\nitob\nlog\nint 1\nreturn\n", ("approve", [(9).to_bytes(8, "big")])),
+        # retsub after proto: the result is frame slot 0, the local above it is discarded
+        (P + "int 4\ncallsub f\nitob\nlog\nint 1\nreturn\nf:\nproto 1 1\nint 0\nint 99\nframe_dig -1\nint 1\n+\nframe_bury 0\nretsub\n", ("approve", [(5).to_bytes(8, "big")])),
+        (P + "int 4\nint 6\ncallsub g\n+\nitob\nlog\nint 1\nreturn\ng:\nproto 1 1\nframe_dig -1\nint 2\n*\nretsub\n", ("approve", [(16).to_bytes(8, "big")])),
         (P + 'byte "a"\nint 1\n+\nreturn\n', ("fail", [])),
         (P + "int 1\nint 2\nreturn\n", ("approve", [])),
         (P + "+\nint 1\nreturn\n", ("fail", [])),
